@@ -47,7 +47,7 @@ package ports
 //@ interface ModelRoutingStrategy.GetRoutableEndpoints
 //@   requires allNonNil(healthyEndpoints)
 //@   modifies domain.Endpoint.Status, domain.Endpoint.Name, domain.Endpoint.URLString, domain.Endpoint.Priority, domain.Endpoint.Type, domain.Endpoint.NextCheckTime, domain.Endpoint.LastChecked, domain.Endpoint.ConsecutiveFailures, domain.Endpoint.BackoffMultiplier, domain.Endpoint.LastLatency
-//@   ensures res1 != nil
+//@   ensures res1 != nil && fresh(res1) && allNonNil(res0)
 //@   ensures res1.Action == "routed" ==> forall k int :: 0 <= k && k < len(res0) ==> member(res0[k], healthyEndpoints) && listedURL(old(res0[k].URLString), modelEndpoints)
 //@   ensures res1.Action == "rejected" ==> len(res0) == 0 && (res1.StatusCode == 404 || res1.StatusCode == 503)
 //@   ensures res1.Action == "routed" || res1.Action == "rejected" || res1.Action == "fallback"
